@@ -376,7 +376,7 @@ def c02(ctx):
 
 def c09(ctx):
     q = ctx.quick()
-    fams = [("approvals", 4 if q else 5, 5 if q else 23)]
+    fams = [("approvals", 4 if q else 5, 5 if q else 23), ("apprskip", 9, 100003), ("apprlate", 9, 100003)]
     return _verify(ctx, "C09", fams, 8000 if q else 60000, ["C01Refines"])
 
 
@@ -410,7 +410,8 @@ def c13(ctx):
     known, asbuilt = devsets("C13")
     asbuilt = (asbuilt & META_DEVS) | known
     scns, seen = [], set()
-    for which, maxlen, mod in (("file", 5 if q else 6, 1 if q else 3), ("root", 4 if q else 5, 3 if q else 7)):
+    for which, maxlen, mod in (("file", 5 if q else 6, 1 if q else 3), ("root", 4 if q else 5, 3 if q else 7),
+                               ("multi", 5 if q else 7, 1 if q else 3)):
         consts = {"MaxLen": maxlen, "Dev": set(), "Which": '"%s"' % which, "EmitMod": mod, "EmitRes": ctx.seed % mod}
         model_check(ctx, "MC_Metadata", dict(constants=consts, invariants=["WF", "RefusedUnchanged"], view="View"), timeout=7200)
         r = run_tlc(ctx, "MC_Metadata", dict(constants=dict(consts, Dev=asbuilt), view="View", constraints=["Emit"]), timeout=7200)
@@ -444,8 +445,9 @@ def c13(ctx):
                   assumptions=["edit sequences run on tufv02 and tufv01 metadata objects; projections are taken through the "
                                "query interface (GetRules, GetPrincipals, thresholds, GetGlobalRules, GetHooks) of the live, "
                                "reloaded (JSON round trip) and migrated objects",
-                               "uniqueness of rule names across rule files (repository API level) and propagation / controller "
-                               "edits are not modelled yet"])
+                               "controller / network repository edits (enable, disable, add) are explored in their own edit alphabet",
+                               "uniqueness of rule names across rule files (repository API level) and propagation directive edits are "
+                               "not modelled yet"])
 
 
 # ---------------------------------------------------------------------------
@@ -689,8 +691,11 @@ def c12(ctx):
         if x.get("t") == "SCN" and k not in seen:
             seen.add(k)
             scns.append(x)
-    # the rotation histories no test performs are always included
-    scns += [{"t": "SCN", "ops": [{"op": "Init", "s": "a"}, {"op": "Apply"}, {"op": "AddRootKey", "s": "a", "k": "b"},
+    # the rotation histories no test performs are always included, and the first-ever Apply over a tampered staging ref
+    scns += [{"t": "SCN", "ops": [{"op": "Init", "s": "a"}, {"op": "TamperStaging"}, {"op": "Apply"}]},
+             {"t": "SCN", "ops": [{"op": "Init", "s": "a"}, {"op": "AddRootKey", "s": "a", "k": "b"}, {"op": "TamperStaging"}, {"op": "Apply"},
+                                  {"op": "Discard"}]},
+             {"t": "SCN", "ops": [{"op": "Init", "s": "a"}, {"op": "Apply"}, {"op": "AddRootKey", "s": "a", "k": "b"},
                                   {"op": "RemoveRootKey", "s": "b", "k": "a"}, {"op": "Apply"}]},
              {"t": "SCN", "ops": [{"op": "Init", "s": "a"}, {"op": "Apply"}, {"op": "AddRootKey", "s": "a", "k": "b"},
                                   {"op": "AddRootKey", "s": "b", "k": "a"}, {"op": "Apply"}]},
@@ -702,7 +707,7 @@ def c12(ctx):
     run_vh(ctx, ["policyapply", "-scn", scn_path, "-out", trace, "-seed", ctx.seed, "-n", 80 if q else 600], timeout=7200)
     # keep the fixed witnesses in the sample: they were appended last, re-run them explicitly
     wit = os.path.join(ctx.scratch, "wit.ndjson")
-    write_ndjson(wit, scns[-3:])
+    write_ndjson(wit, scns[-5:])
     trace2 = os.path.join(ctx.scratch, "trace2.ndjson")
     run_vh(ctx, ["policyapply", "-scn", wit, "-out", trace2, "-seed", ctx.seed], timeout=3600)
     allt = os.path.join(ctx.scratch, "all.ndjson")
